@@ -99,6 +99,51 @@ def run(ctx):
     rep.rule("C09.R7", "A6 fault scoping total over RuntimeError; fault recording only on the failure arms")
 
     st = prog.fn(CO + "SchedulerCoordinator::super_tick_inner")
+    # ---- R1a  the rollback checkpoint is a PRE-pass image: nothing is captured into it once a head of the pass may have committed
+    RC = CO + "RuntimeCheckpoint"
+    prog.adt(RC)
+    capt = set()
+    for f in prog.fns.values():
+        if f.crate == "warp_core" and f.id.startswith(CO) and not f.is_closure() and "::tests::" not in f.id:
+            raw = f.rec.get("_raw")
+            if raw is not None and "RuntimeCheckpoint" not in raw:
+                continue
+            if agg_blocks(f, RC) or mod_set([f], RC):
+                capt.add(f.id)
+    cap_sites = [bi for bi, t in st.calls() if (st.callee_of(t) or "") in capt and not st.blocks[bi]["cl"]]
+    commit_sites = []
+    for bi, t in st.calls():
+        if st.blocks[bi]["cl"]:
+            continue
+        roots = []
+        c = st.callee_of(t) or ""
+        if c in prog.fns:
+            roots.append(c)
+        for a in t["args"]:
+            # a closure handed to the call, directly or wrapped once (`catch_unwind(AssertUnwindSafe(|| ..))`)
+            for at in st.origins().of_operand(a, deep=False):
+                if at.kind == "agg" and at.key[0] in prog.fns:
+                    roots.append(at.key[0])
+                elif at.kind == "agg" and len(at.key) == 4:
+                    rv_ = st.blocks[at.key[2]]["st"][at.key[3]][2]
+                    for o_ in rv_.get("os", []):
+                        for at2 in st.origins().of_operand(o_, deep=False):
+                            if at2.kind == "agg" and at2.key[0] in prog.fns:
+                                roots.append(at2.key[0])
+            if "fn" in a and a.get("fn") in prog.fns:
+                roots.append(a["fn"])
+        if roots:
+            ids_, _e = prog.reach(roots)
+            if any(i.endswith("Engine::commit_with_state") or i.endswith("Engine::commit_with_receipt") for i in ids_):
+                commit_sites.append(bi)
+    rep.check(bool(cap_sites) and bool(commit_sites), "C09.R1", "pass:capture-and-commit-sites", "%d checkpoint capture site(s), %d commit site(s)" % (len(cap_sites), len(commit_sites)),
+              "capture sites=%d commit sites=%d (capturers: %s)" % (len(cap_sites), len(commit_sites), sorted(x.rsplit("::", 1)[-1] for x in capt)), site=st.loc())
+    for c in commit_sites:
+        tgt = st.blocks[c]["t"].get("tgt")
+        w = st.path([tgt], cap_sites) if tgt is not None else None
+        rep.check(w is None, "C09.R1", "pass:checkpoint-captured-before-any-commit", "no state is captured into the rollback checkpoint after a head may have committed",
+                  "the rollback checkpoint captures runtime state AFTER an earlier head of the same pass may have committed (%s): a later failure restores a frontier that already "
+                  "contains that head's commit" % st.describe_path(w), site=st.loc(st.block_line(w[-1]) if w else None))
     # ---- R1
     rck = st.call_sites(r"WorldlineRuntime::checkpoint_for$")
     pck = st.call_sites(r"ProvenanceService::checkpoint_for$")
